@@ -92,7 +92,7 @@ theorem TokNew.ok {env : Env} {st : St} {ti : TokInfo} (h : TokNew env st ti) : 
   · simp only [hk]; exact Or.inl ha
   · simp only [hk]; exact ⟨pi, getElem?_append_some _ _ _ _ h1, h2⟩
 
-theorem atom_toksInv {env : Env} {a b : St} (h : Atom env a b) (hi : ToksInv env a) : ToksInv env b := by
+theorem atom_toksInv {env : Env} {sends : Bool} {a b : St} (h : Atom env sends a b) (hi : ToksInv env a) : ToksInv env b := by
   unfold ToksInv at hi ⊢
   cases h with
   | tok ti hn =>
@@ -101,9 +101,9 @@ theorem atom_toksInv {env : Env} {a b : St} (h : Atom env a b) (hi : ToksInv env
     · exact (hi t ti' h1).mono [ti]
     · subst h2; exact hn.ok
   | banker _ _ => exact hi
-  | move _ _ _ _ _ => exact hi
+  | move _ _ _ _ _ _ => exact hi
   | supply _ _ _ => exact hi
-  | spent _ _ => exact hi
+  | spent _ _ _ => exact hi
   | params _ _ => exact hi
 
 theorem BankerNew.ok {nP : Nat} {st : St} {bi : BankerInfo} (h : BankerNew st bi) (bid : Nat) : BankerOk nP st.toks bid bi := by
@@ -112,7 +112,7 @@ theorem BankerNew.ok {nP : Nat} {st : St} {bi : BankerInfo} (h : BankerNew st bi
   · simp only [hs]; exact ⟨h1, h2⟩
   · simp only [hs]; exact ⟨ti, h⟩
 
-theorem atom_bankersInv {env : Env} {nP : Nat} {a b : St} (h : Atom env a b) (hi : BankersInv nP a) : BankersInv nP b := by
+theorem atom_bankersInv {env : Env} {sends : Bool} {nP : Nat} {a b : St} (h : Atom env sends a b) (hi : BankersInv nP a) : BankersInv nP b := by
   unfold BankersInv at hi ⊢
   cases h with
   | tok ti _ => intro bid bi hb; exact (hi bid bi hb).mono [ti]
@@ -121,25 +121,25 @@ theorem atom_bankersInv {env : Env} {nP : Nat} {a b : St} (h : Atom env a b) (hi
     rcases getElem?_snoc _ _ _ _ hb with h1 | ⟨_, h2⟩
     · exact hi bid bi h1
     · subst h2; exact hn.ok bid
-  | move _ _ _ _ _ => exact hi
+  | move _ _ _ _ _ _ => exact hi
   | supply _ _ _ => exact hi
-  | spent _ _ => exact hi
+  | spent _ _ _ => exact hi
   | params _ _ => exact hi
 
-theorem atom_logInv {env : Env} {log0 : List Ev} {a b : St} (h : Atom env a b) (hi : LogInv log0 a) : LogInv log0 b := by
+theorem atom_logInv {env : Env} {sends : Bool} {log0 : List Ev} {a b : St} (h : Atom env sends a b) (hi : LogInv log0 a) : LogInv log0 b := by
   unfold LogInv at hi ⊢
   obtain ⟨l, hl, hok⟩ := hi
   cases h with
   | tok _ _ => exact ⟨l, hl, hok⟩
   | banker bi _ => exact ⟨l, hl, fun e he => (hok e he).mono [bi]⟩
-  | move x d amt c hm =>
+  | move x d amt c hm _ =>
     refine ⟨⟨x, d, amt, c⟩ :: l, by simp [Bank.move, hl], ?_⟩
     intro e he
     rcases List.mem_cons.mp he with rfl | he'
     · exact hm
     · exact hok e he'
   | supply _ _ _ => exact ⟨l, hl, hok⟩
-  | spent _ _ => exact ⟨l, hl, hok⟩
+  | spent _ _ _ => exact ⟨l, hl, hok⟩
   | params _ _ => exact ⟨l, hl, hok⟩
 
 theorem logSum_cons (e : Ev) (log : List Ev) (a : Addr) (d : Str) :
@@ -152,13 +152,13 @@ theorem logSum_cons (e : Ev) (log : List Ev) (a : Addr) (d : Str) :
       intro h1 h2; exact h ⟨h1, h2⟩
     simp [List.filter, this, h]
 
-theorem atom_ledgerInv {env : Env} {led0 : Ledger} {log0 : List Ev} {a b : St} (h : Atom env a b)
+theorem atom_ledgerInv {env : Env} {sends : Bool} {led0 : Ledger} {log0 : List Ev} {a b : St} (h : Atom env sends a b)
     (hi : LedgerInv led0 log0 a) : LedgerInv led0 log0 b := by
   unfold LedgerInv at hi ⊢
   cases h with
   | tok _ _ => exact hi
   | banker _ _ => exact hi
-  | move x d amt c _ =>
+  | move x d amt c _ _ =>
     intro a' d'
     have := hi a' d'
     simp only [Bank.move, Ledger.credit, logSum_cons]
@@ -170,29 +170,29 @@ theorem atom_ledgerInv {env : Env} {led0 : Ledger} {log0 : List Ev} {a b : St} (
       simp only [hh, h2, if_false]
       omega
   | supply _ _ _ => exact hi
-  | spent _ _ => exact hi
+  | spent _ _ _ => exact hi
   | params _ _ => exact hi
 
-theorem atom_supplyInv {env : Env} {led0 : Ledger} {a b : St} (h : Atom env a b)
+theorem atom_supplyInv {env : Env} {sends : Bool} {led0 : Ledger} {a b : St} (h : Atom env sends a b)
     (hi : SupplyInv led0 a) : SupplyInv led0 b := by
   unfold SupplyInv at hi ⊢
   cases h with
   | tok _ _ => exact hi
   | banker bi _ => exact fun d hd => (hi d hd).mono [bi]
-  | move _ _ _ _ _ => exact hi
+  | move _ _ _ _ _ _ => exact hi
   | supply d x hs =>
     intro d' hd'
     by_cases hdd : d' = d
     · subst hdd; exact hs
     · apply hi d'
       simpa [Ledger.setSupply, hdd] using hd'
-  | spent _ _ => exact hi
+  | spent _ _ _ => exact hi
   | params _ _ => exact hi
 
 /-! ### along a whole run -/
 
-theorem steps_inv {env : Env} (P : St → Prop) (hatom : ∀ a b, Atom env a b → P a → P b) {a b : St}
-    (h : Steps env a b) (hp : P a) : P b := by
+theorem steps_inv {env : Env} {sends : Bool} (P : St → Prop) (hatom : ∀ a b, Atom env sends a b → P a → P b) {a b : St}
+    (h : Steps env sends a b) (hp : P a) : P b := by
   induction h with
   | refl => exact hp
   | tail _ hat ih => exact hatom _ _ hat ih
